@@ -383,8 +383,12 @@ Definition new_sids (o : op) : list nat :=
                     the other) and may get that identity back: nothing is demanded of the tuples it swaps in *)
   end.
 
+Fixpoint distinct_nz (l : list nat) : bool :=
+  match l with [] => true | x :: t => (Nat.eqb x 0 || negb (mem x t)) && distinct_nz t end.
+
 Definition fresh_ok (s : state) (o : op) : bool :=
-  forallb (fun i => Nat.eqb i 0 || negb (mem i (sids_in_use s))) (new_sids o).
+  forallb (fun i => Nat.eqb i 0 || negb (mem i (sids_in_use s))) (new_sids o) &&
+  distinct_nz (new_sids o).            (* nor do two new objects of one operation share storage *)
 
 Definition step_d (s : state) (o : op) : state * outcome :=
   if fresh_ok s o then step s o else (s, Stuck).
